@@ -45,6 +45,13 @@ def make_cases(ctx, n_per_type, thorough):
         sig = "y" * prefix + ("v" if op in VARIANT_OPS else (wg.erased(t) if t else ""))
         cases.append({"stream": stream, "op": op, "ty": ty, "t": t, "bo": bo, "prefix": prefix, "toks": toks, "bad": bad, "cls": cls, "sig": sig})
 
+    for line in wg.corpus_lines("C02"):
+        f = line.split(" ")
+        if f[0] == "MT":
+            add("catalogue", "MT", f[1], wg.parse_ext(f[1]), f[2], int(f[3]), f[4:], cls="corpus")
+        else:
+            # the dynamic API: judged like the inconsistent stream (consistent trees fall through to the specification)
+            add("inconsistent", f[0], None, None, f[1], int(f[2]), f[3:], cls="corpus")
     for ty in wg.catalogue() + wg.catalogue_marshal_only():
         t = wg.parse_ext(ty)
         for i in range(n_per_type):
@@ -105,7 +112,7 @@ def run(ctx):
     vlib.coq_make(["Wire/Ops.vo"])
     drv = vlib.ocaml_build("wire")
 
-    n_per_type = 60 if thorough else 16
+    n_per_type = 100 if thorough else 16
     cases = make_cases(ctx, n_per_type, thorough)
     lines = [line_of(c) for c in cases]
     small = [i for i, c in enumerate(cases) if c["stream"] != "big"]
@@ -171,7 +178,9 @@ def run(ctx):
         if t:
             ctx.count("kind:" + t[0])
         ctx.count("impl:" + fi["res"].lower())
-        if c["stream"] == "catalogue":
+        if c["cls"] == "corpus":
+            ctx.count("corpus")
+        elif c["stream"] == "catalogue":
             ctx.count("with_bad_leaf" if bad else "all_leaves_valid")
             if op == "MT":
                 for fl in wg.flavours(ty):
@@ -250,7 +259,7 @@ def replay(ctx, body):
     if "...(" in line:
         head = line.split(" ...(")[0]
         c2 = vlib.Ctx("C02", body.get("tier", "quick"), int(body["seed"]))
-        cands = [c for c in make_cases(c2, 60 if body.get("tier") == "thorough" else 16, body.get("tier") == "thorough")
+        cands = [c for c in make_cases(c2, 100 if body.get("tier") == "thorough" else 16, body.get("tier") == "thorough")
                  if c["stream"] == "big" and line_of(c).startswith(head)]
         if not cands:
             print("could not regenerate the case from the seed")
